@@ -527,10 +527,15 @@ def check_variable_universe(ctx: Ctx, oid: str):
     ctx.ob(oid, "R18 table", f, "the variable count ranges over the clauses and over the assumptions", {"clauses", "assumptions"} <= srcs, f"n_vars is the maximum over {sorted(srcs)}: a literal of a variable beyond it indexes the value / watch arrays out of range (IndexError instead of a verdict)", node=f.node)
 
 
+def _flat(text: str) -> str:
+    """indentation-insensitive form: statement groups are compared line by line, whatever block they sit in"""
+    return "\n".join(line.strip() for line in text.splitlines())
+
+
 def _need(ctx: Ctx, oid: str, rule: str, f: Func, what: str, frags: list[str], detail: str = ""):
     """obligation stated as a set of statement groups that must all be present in the (surface-normalised) function"""
-    t = ast.unparse(f.node)
-    missing = [fr.strip().split("\n")[0] for fr in frags if fr not in t]
+    t = _flat(ast.unparse(f.node))
+    missing = [fr.strip().split("\n")[0] for fr in frags if _flat(fr) not in t]
     ctx.ob(oid, rule, f, what, not missing, (f"not found: `{missing[0]}`" + (f" (+{len(missing) - 1})" if len(missing) > 1 else "") + (". " + detail if detail else "")) if missing else "", node=f.node)
 
 
